@@ -466,8 +466,14 @@ class ValueGen:
         ity = schema[item]
         if self.sw.get("xobj_input") and rng.random() < (0.2 if top else 0.08):
             cands = self.avail(t)
+            if ity["k"] == "sc" and rng.random() < 0.5:
+                # array objects of other classes with the same item type and number of axes
+                for t2, ty2 in enumerate(schema):
+                    if t2 != t and ty2["k"] == "array" and ty2["item"] == item and len(ty2["shape"]) == len(ty["shape"]):
+                        cands = cands + [c + ("other",) for c in self.avail(t2)]
             if cands:
-                return {"obj": rng.choice(cands)[0]}
+                c = rng.choice(cands)
+                return {"obj": c[0]}
         maxext = self.sw.get("max_extent", 4)
         shape = [d if d is not None else rng.choice([0, 1, 2, 2, 3, maxext]) for d in ty["shape"]]
         if depth > 2:
@@ -630,6 +636,12 @@ class Materialiser:
         if "obj" in spec:
             o = self._obj(spec["obj"])
             if o.t != t:
+                so = schema[o.t]
+                static_ok = all(d is None or d == n for d, n in zip(ty["shape"], o.node.shape))
+                if so["k"] == "array" and schema[so["item"]]["k"] == "sc" and so["item"] == item and len(so["shape"]) == len(ty["shape"]) and static_ok:
+                    # an array object of another class (other axis order / static vs dynamic shape) with
+                    # the same item type and a fitting shape: an accepted input form, element by element
+                    return o.handle(), ArrayNode(t, o.node.shape, list(o.node.items))
                 raise KeyError("type mismatch")
             return o.handle(), copy_node(schema, t, o.node, o.bufid == self.holder_buf)
         if "dims" in spec:
